@@ -33,7 +33,7 @@ from bacpypes.netservice import RouterInfoCache, NetworkServiceAccessPoint, Netw
 SN = {1: 101, 2: 102}                    # abstract source network -> BACnet network number
 DN = {1: 11, 2: 12, 3: 13, 4: 14}        # abstract destination network -> network number
 MAC = {1: 21, 2: 22, 3: 23}              # abstract router address -> MAC on the vlan
-NODE_MAC, PROBE_MAC, SADR_MAC = 1, 5, 9
+NODE_MAC, PROBE_MAC, SADR_MAC, SENDER_MAC = 1, 5, 9, 99
 SN_INV = {v: k for k, v in SN.items()}
 DN_INV = {v: k for k, v in DN.items()}
 MAC_INV = {v: k for k, v in MAC.items()}
@@ -141,17 +141,16 @@ class Lan:
         self.net = Network("lan%d" % idx, broadcast_address=LocalBroadcast())
         self.net.traffic_log = lambda name, pdu, self=self: rig.log.append((self, pdu))
         self.node = Node(Address(NODE_MAC), self.net)
-        self.stations = {}
-        for a, mac in MAC.items():
-            c = Sink()
-            bind(c, Node(Address(mac), self.net))
-            self.stations[a] = c
+        # the router stations: one harness-owned vlan node that sends with the MAC of router a as source address
+        # (vlan.Node(spoofing=True)); what the node under test emits is captured by the LAN's traffic log
+        self.sender = Sink()
+        bind(self.sender, Node(Address(SENDER_MAC), self.net, spoofing=True))
         self.adapter = None
 
 
 class NodeRig:
     """node under test: NetworkServiceAccessPoint + NetworkServiceElement with one port per initially attached
-    network; on every LAN three router stations (harness-owned vlan Nodes) that send the frames"""
+    network; on every LAN the router stations' frames are injected by a harness-owned vlan Node"""
     level = "node"
 
     def __init__(self, attached0):
@@ -189,8 +188,9 @@ class NodeRig:
             x.npduSADR = sadr
         p = PDU()
         x.encode(p)
+        p.pduSource = Address(MAC[a])
         p.pduDestination = dest or LocalBroadcast()
-        lan.stations[a].request(p)
+        lan.sender.request(p)
         self.run()
 
     def lan_of(self, s):
@@ -734,7 +734,7 @@ def main(tier, seed):
         graphs = [dump_graph(chk, "gQ", gQ, 3)]
     phase("R_graph_dumps")
     judge = Judge(chk)
-    node_budget = 50000 if thorough else 6000       # steps on the real node (about 1 ms each)
+    node_budget = 60000 if thorough else 6000       # steps on the real node (about 1 ms each)
     traces = []
     rinfo = []
     for g in graphs:
